@@ -22,6 +22,12 @@ XML = """<schema>
   <key name="ka" default="d"/>
   <multikey name="kl"><default>x</default><default>y</default></multikey>
  </sectiontype>
+ <sectiontype name="tb">
+  <multikey name="+" attribute="mm" datatype="integer"><default key="da">1</default><default key="da">2</default><default key="db">3</default></multikey>
+  <multikey name="kn" datatype="integer"><default>4</default><default>5</default></multikey>
+  <key name="kp" datatype="byte-size" default="1kb"/>
+ </sectiontype>
+ <section type="tb" name="*" attribute="sb"/>
  <key name="ki" datatype="integer" default="3"/>
  <key name="ks" datatype="string-list" default="a b"/>
  <multikey name="km"><default>m1</default></multikey>
@@ -39,6 +45,9 @@ OPS = {
     5: ('section-datatype', ['<ta n>', 'ka bad', '</ta>'], ()),
     6: ('import', ['%import vfq_a', '<pa/>', '<ta/>'], ()),
     7: ('overrides', ['<ta n>', 'kl z', '</ta>'], ('n/kl=o1', 'km=o2', 'zz=o3')),
+    8: ('valid+mutate', ['<tb/>'], ()),                      # every default of tb is used
+    9: ('valid', ['<tb>', 'zz 9', 'kn 6', '</tb>', '<ta/>'], ()),
+    10: ('conversion', ['<tb>', 'zz x', '</tb>'], ()),
 }
 
 
